@@ -254,15 +254,27 @@ def microdvd_writer(ctx, report, ev):
                  {"$fps*$micro": Fraction(1, 10**6)}, {"$fps", "$micro"}, "1", want_floor=True)
     a = fn.node.args
     d = a.defaults[-1] if a.defaults else None
-    dv = d.value if isinstance(d, ast.Constant) else None
+    def _default_value(f_, node_):
+        # a literal, or a name / expression that folds to a number (a module-level constant)
+        if isinstance(node_, ast.Constant):
+            return node_.value
+        if node_ is None:
+            return None
+        try:
+            from ..core.constfold import Folder as _F
+            v_ = ctx.memo("folder", lambda: _F(ctx.index)).eval_in(f_.module, node_)
+        except AnalysisError:
+            return None
+        return v_ if isinstance(v_, (int, float)) and not isinstance(v_, bool) else None
+    dv = _default_value(fn, d)
     report.check(dv is not None and Fraction(str(dv)) == T.MICRODVD_DEFAULT_FPS, "R-AFFINE", fn,
                  "frame rate is the format's default 25 fps", {"default": dv}, "1")
     rd = ctx.index.get_function(path, "MicroDVDReader._framestomicro")
     ad = rd.node.args.defaults[-1] if rd.node.args.defaults else None
-    report.check(isinstance(ad, ast.Constant) and isinstance(d, ast.Constant) and
-                 Fraction(str(ad.value)) == Fraction(str(d.value)),
+    adv = _default_value(rd, ad)
+    report.check(adv is not None and dv is not None and Fraction(str(adv)) == Fraction(str(dv)),
                  "R-TABLE-SIBLING", fn, "reader and writer use the same default frame rate",
-                 {"writer": dv, "reader": getattr(ad, "value", None)}, "1")
+                 {"writer": dv, "reader": adv}, "1")
     ret = resolve_local(fn, [n.value for n in walk_no_nested(fn.node) if isinstance(n, ast.Return)][0])
     kinds = {"micro": "int", "fps": "intfloat" if isinstance(dv, float) and float(dv).is_integer() else "int"}
     rounds = _roundings(ret, kinds)
